@@ -99,7 +99,7 @@ pub fn run() -> i32 {
     let mut r = Report::new("C13");
     r.class_parts = Some(1);
     let thorough = r.thorough();
-    r.rule = "respelling operators, applied one occurrence at a time and at all occurrences, to every rule of rulegen(3) (thorough: plus the frozen corpus of documented / test-suite / example-project rules) in which they apply: `>`/`=>`/`->`, `|`/`//`, `*`/`∅`, `...`/`..`/`…`, `⟨⟩`/`<>`, a space between all characters inside matrices, a trailing `;; text`, renaming of each alpha letter to six other letters, plus 11 templates with plain and inverted alphas renamed to every Greek letter α..ω and every Latin capital, renumbering of variables; all 177 feature spellings of the frozen synonym table in every matrix position (input, output, context, exception, IPA / group / % modifier, structure, set; +, - and α) in the rule lexer and in both alias lexers; word respellings `'`/`ˈ`, `,`/`ˌ`, `:`/`ː`, `;`/`ː.`, doubled segment / length mark, `^` / tie bar and the 20 input aliases. Oracle: original and respelling give equal words, or errors of the same variant. Non-trivial = both Ok.".into();
+    r.rule = "respelling operators, applied one occurrence at a time and at all occurrences, to every rule of rulegen(3) (thorough: plus the frozen corpus of documented / test-suite / example-project rules) in which they apply: `>`/`=>`/`->`, `|`/`//`, `*`/`∅`, `...`/`..`/`…`, `⟨⟩`/`<>`, a space between all characters inside matrices, a trailing `;; text`, renaming of each alpha letter to six other letters, plus 11 templates with plain and inverted alphas renamed to every Greek letter α..ω and every Latin capital, renumbering of variables; all 177 feature spellings of the frozen synonym table in every matrix position (input, output, context, exception, IPA / group / % modifier, structure, set; +, - and α) in the rule lexer and in both alias lexers; word respellings `'`/`ˈ`, `,`/`ˌ`, `:`/`ː`, `;`/`ː.`, doubled segment / length mark, `^` / tie bar and the 20 input aliases; every grapheme of the IPA table respelled with the 19 character aliases and `^` at every position where they apply. Oracle: original and respelling give equal words, or errors of the same variant. Non-trivial = both Ok.".into();
     let words = word_pool();
     let mut tot = Acc::default();
     // ---- operators on generated rules
@@ -182,6 +182,28 @@ pub fn run() -> i32 {
         ("alias", "ɡ͡ba", "g͡ba"), ("alias", "aɡ.ʃa", "ag.Sa"),
     ];
     for rl in &wrules { for (k, a, b) in &pairs { cmp(&format!("word-{}", k), rl, rl, &[a.to_string()], &[b.to_string()], (&[], &[]), (&[], &[]), &mut tw); } }
+    // every grapheme of the IPA table that contains an aliasable character or a tie, at every position of that character
+    // (segment-initial, after a tie, second element of a click, after a prenasalisation letter ...): the input aliases of the
+    // manual (frozen here) and `^` for the tie, one occurrence at a time and all at once, also combined
+    let input_aliases: [(char, char); 19] = [('ʃ', 'S'), ('ʒ', 'Z'), ('ɕ', 'C'), ('ɢ', 'G'), ('ɴ', 'N'), ('ʙ', 'B'), ('ʀ', 'R'), ('χ', 'X'), ('ʜ', 'H'), ('ɐ', 'A'), ('ɛ', 'E'), ('ɪ', 'I'), ('ɔ', 'O'), ('ʊ', 'U'), ('ʏ', 'Y'), ('ɸ', 'φ'), ('ɡ', 'g'), ('ʔ', '?'), ('ǃ', '!')];
+    let mut table_pairs: Vec<(String, String)> = vec![];
+    for (g, _) in asca::verif::cardinals() {
+        let cs: Vec<char> = g.chars().collect();
+        let mut alts: std::collections::BTreeSet<String> = Default::default();
+        for (i, c) in cs.iter().enumerate() {
+            let rep: Option<char> = if *c == '\u{361}' { Some('^') } else { input_aliases.iter().find(|x| x.0 == *c).map(|x| x.1) };
+            if let Some(rc) = rep { let mut v = cs.clone(); v[i] = rc; alts.insert(v.iter().collect()); }
+        }
+        let all: String = cs.iter().map(|c| if *c == '\u{361}' { '^' } else { input_aliases.iter().find(|x| x.0 == *c).map(|x| x.1).unwrap_or(*c) }).collect();
+        if all != g { alts.insert(all); }
+        for a in alts { table_pairs.push((g.clone(), a)); }
+    }
+    let trules: Vec<Vec<String>> = vec![vec![], vec!["a > e".into()]];
+    for rl in &trules { for (g, a) in &table_pairs { for (pre, post) in [("", "a"), ("a", ""), ("ta.", "a")] {
+        cmp("word-table-alias", rl, rl, &[format!("{}{}{}", pre, g, post)], &[format!("{}{}{}", pre, a, post)], (&[], &[]), (&[], &[]), &mut tw);
+    } } }
+    r.boxes.push(json!({"box": "IPA-table graphemes respelled with the input aliases / `^` at every position", "pairs": table_pairs.len(), "frames": 3, "rule_lists": trules.len()}));
+    r.guard(table_pairs.len() > 100, "more than 100 table graphemes contain an aliasable character or a tie");
     r.boxes.push(json!({"box": "word respellings", "pairs": pairs.len(), "rule_lists": wrules.len(), "comparisons": tw.evals, "by_kind": tw.per_kind.clone()}));
     let mut all = Acc::default(); all.merge(tot); all.merge(ts); all.merge(tw);
     r.evaluations = all.evals; r.transitions = all.evals * 2; r.validated = all.equal_ok + all.equal_err; r.nontrivial = all.equal_ok; r.states = all.outs;
